@@ -149,6 +149,12 @@ func (c *diskCache) findMissingCasBlobsInternal(ctx context.Context, blobs []*pb
 			}
 			return errRequestCancelled
 		case <-waitCh: // Everything in the waitgroup has finished.
+			if cancelledDueToFailFast {
+				// A proxy miss cancels ctx before the worker signals the
+				// waitgroup, so both cases can be ready and select may
+				// pick this one.
+				return errMissingBlob
+			}
 		}
 	}
 
